@@ -49,8 +49,9 @@ class C10:
         n = n_for(tier, 4000, 120000)
         for k in range(n):
             hs = wf_headers(rng)
-            if rng.chance(1, 80):
-                hs = [(b"H%d" % i, b"v%d" % i) for i in range(rng.pick([99, 100, 101, 102, 121, 250]))]
+            if rng.chance(1, 40):
+                from . import extremes
+                hs = [(b"H%d" % i, b"v%d" % i) for i in range(rng.pick([99, 100, 101, 102, 121, 250] + [c for c in extremes.COUNTS if c > 5]))]
             elif rng.chance(1, 80):
                 hs = hs + [(b"X-Long", b"v" * rng.pick([990, 991, 992, 4085, 4086, 4087, 8183, 65530]))]
             body = rng.pick(BODIES) if rng.chance(1, 2) else gen.rand_bytes(rng, rng.below(30))
@@ -218,6 +219,14 @@ FRAMING = (b"content-length", b"transfer-encoding", b"trailer")
 OTHER_CODINGS = [b"gzip", b"deflate", b"foo", b"bar", b"GZIP", b"x-custom", b"compress", b"", b"gzip", b"foo", b"identity", b"Identity", b"x-identity", b"x-gzip", b"X-GZip", b"x-compress", b"x-deflate"]
 
 
+def _dict_codings():
+    from . import srcdict
+    return [t for t in srcdict.load()["tokens"] if b"," not in t and b" " not in t and t.lower() != b"chunked" and t not in OTHER_CODINGS]
+
+
+OTHER_CODINGS = OTHER_CODINGS + _dict_codings()
+
+
 def tokens_of(values):
     out = []
     for v in values:
@@ -260,9 +269,10 @@ class C12:
             if rng.chance(1, 3):
                 hs.insert(rng.below(len(hs) + 1), (gen.randcase(rng, b"Trailer"), rng.pick([b"X-T", b"X-T, Host", b"Content-Length"])))
             trs = []
-            if rng.chance(1, 60):       # a long trailer section (a cap on the number of fields would show)
+            if rng.chance(1, 40):       # a long trailer section (a cap on the number of fields would show)
                 first = [(b"Content-Length", b"9")] if rng.chance(1, 2) else []
-                trs = first + [(b"T%d" % i, b"v%d" % i) for i in range(rng.pick([99, 100, 101, 102, 150]))]
+                from . import extremes
+                trs = first + [(b"T%d" % i, b"v%d" % i) for i in range(rng.pick([99, 100, 101, 102, 150] + [c for c in extremes.COUNTS if c > 5]))]
             for _ in range(rng.below(4) if rng.chance(2, 3) and not trs else 0):
                 a, b = rng.pick(gen.TRAILER_FIELDS + [(x, y) for x, y in hs[:2]])
                 trs.append((gen.randcase(rng, a) if rng.chance(1, 3) else a, b))
